@@ -394,13 +394,23 @@ class BufferAnalysis:
             return (fl, z)
         return st.map(f)
 
-    def grow_index(self, test, fr):
-        """the slot index of a grow-on-demand guard, or None:  i > m, i >= m, i == len(buf), len(buf) <= i, m < i"""
+    def grow_index(self, test, fr, negated=False):
+        """the slot index of a grow-on-demand guard, or None:  i > m, i >= m, i == len(buf), len(buf) <= i, m < i  (the append sits in the true
+        branch), or the complementary tests i < len(buf), i <= m, len(buf) > i, i != len(buf) (the append sits in the else branch)"""
+        while isinstance(test, ast.UnaryOp) and isinstance(test.op, ast.Not):
+            test = test.operand
+            negated = not negated
         if not (isinstance(test, ast.Compare) and len(test.ops) == 1):
             return None
         l, op, r = test.left, type(test.ops[0]), test.comparators[0]
+        if negated:
+            op = {ast.Lt: ast.GtE, ast.LtE: ast.Gt, ast.Gt: ast.LtE, ast.GtE: ast.Lt, ast.NotEq: ast.Eq, ast.Eq: ast.NotEq}.get(op)
         if op in (ast.Gt, ast.GtE, ast.Eq):
-            return self.iexpr(l, fr)
+            # the side that is not the length/mark expression is the index; for `i == len(buf)` prefer the non-len side
+            li, ri = self.iexpr(l, fr), self.iexpr(r, fr)
+            if op is ast.Eq and li is not None and isinstance(l, ast.Call):
+                return ri
+            return li
         if op in (ast.Lt, ast.LtE):
             return self.iexpr(r, fr)
         return None
@@ -471,6 +481,10 @@ class BufferAnalysis:
             if gi is not None and any(isinstance(x, ast.Call) and isinstance(x.func, ast.Attribute) and x.func.attr == 'append' and self.is_buf(x.func.value, fr)
                                       for b in s.body for x in ast.walk(b)):
                 ctl_t['grow'] = gi
+            gi2 = self.grow_index(s.test, fr, negated=True)
+            if gi2 is not None and any(isinstance(x, ast.Call) and isinstance(x.func, ast.Attribute) and x.func.attr == 'append' and self.is_buf(x.func.value, fr)
+                                       for b in s.orelse for x in ast.walk(b)):
+                ctl_f['grow'] = gi2
             a = self.block(s.body, zt, fr, ctl_t)
             b = self.block(s.orelse, zf, fr, ctl_f)
             return a.join(b)
